@@ -158,4 +158,13 @@ theorem trAll_some :
     (TS.run (stepS? cfgA) init (trPre ++ [.truncate 1, .readTurn 1 []] ++ trPost)).isSome = true := by decide
 def sTrAll : State := (TS.run (stepS? cfgA) init (trPre ++ [.truncate 1, .readTurn 1 []] ++ trPost)).get trAll_some
 
+/-! a job that has read and committed everything (release allowed), and the same after one more append -/
+def relOps : List Op :=
+  [.create 1 0, .append 1 fileA, .restart, .discover 1, .scanDone, .readTurn 1 [fileA],
+   .deliver x1, .deliver x2, .ack x1, .commit x1, .ack x2, .commit x2]
+theorem rel_some : (TS.run (stepS? cfgAB) init relOps).isSome = true := by decide
+def sRel : State := (TS.run (stepS? cfgAB) init relOps).get rel_some
+theorem rel2_some : (TS.run (stepS? cfgAB) init (relOps ++ [.append 1 [97, 10]])).isSome = true := by decide
+def sRel2 : State := (TS.run (stepS? cfgAB) init (relOps ++ [.append 1 [97, 10]])).get rel2_some
+
 end FileD.PropsC03
